@@ -297,6 +297,8 @@ func (r *Run) Violation(key string, payload any, detail string) {
 		detail = detail[:6000] + "…"
 	}
 	r.res.Violations = append(r.res.Violations, Violation{Key: key, Detail: detail, Payload: b})
+	// keep what was found even if the process dies later
+	r.flushLocked()
 }
 
 func (r *Run) EngineError(msg string) {
@@ -307,6 +309,10 @@ func (r *Run) EngineError(msg string) {
 
 func (r *Run) flush() {
 	r.endSection()
+	r.flushLocked()
+}
+
+func (r *Run) flushLocked() {
 	b, _ := json.Marshal(&r.res)
 	if r.outPath != "" {
 		tmp := r.outPath + ".tmp"
